@@ -72,6 +72,12 @@ def failStep (s : State) (outs : List Out) : Fail → Step
   | .tag t => ⟨s, outs, .err t⟩
   | .panic => ⟨s, outs, .panic⟩
 
+/-- broadcast `m` from state `s` after the effects `pre`; a refused broadcast is an error wrapped in `a` -/
+def sendOr (cfg : Cfg) (s : State) (a : Atom) (m : Msg) (pre : List Out) : Step :=
+  match wrap a (broadcast cfg s m) with
+  | .ok o => okStep s (pre ++ o)
+  | .error f => failStep s pre f
+
 /-! ### creation of own messages -/
 
 def createPrepare (cfg : Cfg) (s : State) (newRound root : Nat) : Msg :=
@@ -159,10 +165,7 @@ def uponProposal (cfg : Cfg) (s : State) (m : Msg) : Step :=
   if !added then okStep s [] else
   let outs1 : List Out := if m.round > s.round then [.timer m.height m.round] else []
   let s1 := { s with propose := pc, accepted := some m, round := m.round }
-  let prepare := createPrepare cfg s1 m.round (hashData m.fullData)
-  match wrap .bcastPrepareFailed (broadcast cfg s1 prepare) with
-  | .ok o => okStep s1 (outs1 ++ o)
-  | .error f => failStep s1 outs1 f
+  sendOr cfg s1 .bcastPrepareFailed (createPrepare cfg s1 m.round (hashData m.fullData)) outs1
 
 /-- `uponPrepare` (the prepare is valid; a nil accepted proposal would be a nil dereference) -/
 def uponPrepare (cfg : Cfg) (s : State) (m : Msg) : Step :=
@@ -176,10 +179,7 @@ def uponPrepare (cfg : Cfg) (s : State) (m : Msg) : Step :=
   | none => ⟨s1, [], .panic⟩
   | some p =>
     let s2 := { s1 with lastPreparedValue := p.fullData, lastPreparedRound := s.round }
-    let commit := createCommit cfg s2 p.root
-    match wrap .bcastCommitFailed (broadcast cfg s2 commit) with
-    | .ok o => okStep s2 o
-    | .error f => failStep s2 [] f
+    sendOr cfg s2 .bcastCommitFailed (createCommit cfg s2 p.root) []
 
 /-- insertion sort (`sort.Slice(ret.Signers, <)` in `aggregateCommitMsgs`) -/
 def insertSorted (a : Nat) : List Nat → List Nat
@@ -261,11 +261,7 @@ def hasReceivedProposalJustification (cfg : Cfg) (s : State) (trigger : Msg) : V
 /-- `uponChangeRoundPartialQuorum` -/
 def uponChangeRoundPartialQuorum (cfg : Cfg) (s : State) (newRound : Nat) : Step :=
   let s1 := { s with round := newRound, accepted := none }
-  let outs1 : List Out := [.timer s1.height s1.round]
-  let rc := createRoundChange cfg s1 newRound
-  match wrap .bcastRoundChangeFailed (broadcast cfg s1 rc) with
-  | .ok o => okStep s1 (outs1 ++ o)
-  | .error f => failStep s1 outs1 f
+  sendOr cfg s1 .bcastRoundChangeFailed (createRoundChange cfg s1 newRound) [.timer s1.height s1.round]
 
 /-- `uponRoundChange` (the round-change is valid) -/
 def uponRoundChange (cfg : Cfg) (s : State) (m : Msg) : Step :=
@@ -277,10 +273,7 @@ def uponRoundChange (cfg : Cfg) (s : State) (m : Msg) : Step :=
   match hasReceivedProposalJustification cfg s1 m with
   | .error f => failStep s1 [] f
   | .ok (some (justified, value)) =>
-    let proposal := createProposal cfg s1 value (forRound rc s1.round) justified.rcJust
-    match wrap .bcastProposalFailed (broadcast cfg s1 proposal) with
-    | .ok o => okStep s1 o
-    | .error f => failStep s1 [] f
+    sendOr cfg s1 .bcastProposalFailed (createProposal cfg s1 value (forRound rc s1.round) justified.rcJust) []
   | .ok none =>
     let higher := rc.filter (fun x => decide (x.round > s1.round))
     if cfg.hasPartialQuorum (signersOf higher) then
